@@ -154,6 +154,7 @@ def run(ck, m):
     offset_roles(ck, m)
     from nl import alias
     alias.repeat(ck, m, 'C11', ('C11.h',), 'C06.p', runner=__import__('props.C11', fromlist=['x']).loader_keeps_every_record)
+    __import__('props.C11', fromlist=['x']).one_mode_rule(ck, m, rule='C06.r')
 
 
 def _run(ck, m):
